@@ -472,5 +472,18 @@ def unit_character_spellings():
             return None if got == ch else {"expected": "%s %r denotes %r" % (prop_name, text, ch), "observed": repr(got)}
         r3 = sweep("C11/spellings/the value cell of a data format row reaches the property as written (through Cid.read)", cid_cases(), cid_check, "bounded", "item delimiter x 7 spellings with upper-case letters, property name in varying case",
                    describe=lambda c: {"property": c[0], "text": c[2]}, function="interface.Cid.add_data_format_row + data.DataFormat.set_property", unit="C11.spellings", props=["C11"])
-        return [r1, r2, r3]
+        # "given literally, as decimal or hex code": number spellings Python reads but the documentation does not list (octal, binary, digit-group underscores)
+        from vf import findings
+        out_ = [r1, r2, r3]; k19 = []; undocumented = ["0o40", "0O40", "0b100001", "0B100001", "1_0", "3_2", "0x2_0"]
+        def undoc_check(t):
+            try: got = data.DataFormat._validated_character("item delimiter", t, None)
+            except errors.InterfaceError: return None
+            except Exception as e: return {"expected": "InterfaceError for %r" % t, "observed": repr(e)}
+            if findings.is_known("K-19", "C11"): k19.append((t, got)); return None
+            return {"expected": "undocumented number spelling %r refused" % t, "observed": "accepted as %r" % got}
+        out_.append(sweep("C11/spellings/number spellings other than decimal and hex are refused", undocumented, undoc_check, "bounded", "7 octal / binary / underscore spellings", function="data.DataFormat._validated_character", unit="C11.spellings", props=["C11"]))
+        if k19:
+            out_.append(Result("C11/K-19 witness: an item delimiter written as an octal or binary code or with digit-group underscores is accepted (%s)" % ", ".join("%s -> %r" % kv for kv in k19[:4]), "bounded", FAILED, "native",
+                               finding="K-19", cases=len(k19), props=["C11"], detail=repr(k19), replay={"verdict": "confirmed", "input": {"property": "item delimiter", "value": k19[0][0]}, "expected": "refused (neither a decimal nor a hex code)", "observed": "accepted as %r" % (k19[0][1],)}))
+        return out_
     return NativeUnit("C11.spellings", "bounded stand-in for the character spellings (tokenizer + unicode_escape)", ["C11", "C10"], run, kind="bounded")
